@@ -414,8 +414,11 @@ func (l *Linter) lintSubRoutineDeclaration(decl *ast.SubroutineDeclaration, ctx 
 	cc.ReturnType = nil
 
 	// Check ignored UNUSED_DECLARATION rule and mark as used
+	// The subroutine is not registered when its name collides with a builtin function (namespace)
 	if l.ignore.IsEnable(UNUSED_DECLARATION) {
-		ctx.Subroutines[decl.Name.Value].IsUsed = true
+		if sub, ok := ctx.Subroutines[decl.Name.Value]; ok {
+			sub.IsUsed = true
+		}
 	}
 
 	return types.NeverType
